@@ -292,9 +292,9 @@ fn dispatch_integer_method(receiver: &i32, method_name: &str, argument_pointers:
     let argument_pointer = argument_pointers.last().unwrap();
 
     let result = match (method_name, argument_pointer) {
-        ("+",  Pointer::Integer(argument)) => Pointer::from(receiver +  argument),
-        ("-",  Pointer::Integer(argument)) => Pointer::from(receiver -  argument),
-        ("*",  Pointer::Integer(argument)) => Pointer::from(receiver *  argument),
+        ("+",  Pointer::Integer(argument)) => Pointer::from(receiver.wrapping_add(*argument)),
+        ("-",  Pointer::Integer(argument)) => Pointer::from(receiver.wrapping_sub(*argument)),
+        ("*",  Pointer::Integer(argument)) => Pointer::from(receiver.wrapping_mul(*argument)),
         ("/",  Pointer::Integer(argument)) => Pointer::from(receiver /  argument),
         ("%",  Pointer::Integer(argument)) => Pointer::from(remainder(*receiver, *argument)?),
         ("<=", Pointer::Integer(argument)) => Pointer::from(receiver <= argument),
@@ -306,9 +306,9 @@ fn dispatch_integer_method(receiver: &i32, method_name: &str, argument_pointers:
         ("==", _) => Pointer::from(false),
         ("!=", _) => Pointer::from(true),
 
-        ("add", Pointer::Integer(argument)) => Pointer::from(receiver +  argument),
-        ("sub", Pointer::Integer(argument)) => Pointer::from(receiver -  argument),
-        ("mul", Pointer::Integer(argument)) => Pointer::from(receiver *  argument),
+        ("add", Pointer::Integer(argument)) => Pointer::from(receiver.wrapping_add(*argument)),
+        ("sub", Pointer::Integer(argument)) => Pointer::from(receiver.wrapping_sub(*argument)),
+        ("mul", Pointer::Integer(argument)) => Pointer::from(receiver.wrapping_mul(*argument)),
         ("div", Pointer::Integer(argument)) => Pointer::from(receiver /  argument),
         ("mod", Pointer::Integer(argument)) => Pointer::from(remainder(*receiver, *argument)?),
         ("le",  Pointer::Integer(argument)) => Pointer::from(receiver <= argument),
